@@ -377,6 +377,13 @@ class OraclesMixin:
             bad("O6.1", "user suffix not applied to every right column", kind="user_suffix_partial")
         if not (set(lm.names()) & set(rm.names())) and not user and nonempty:
             bad("O6.1", f"no name collision, yet right columns were renamed: {right_new}", kind="needless_rename")
+        if "" in sfx_seen and nonempty:
+            # partial rename (only the clashing join columns get the suffix): every renamed right
+            # column clashes with a left name
+            lnames = set(lm.names())
+            for orig, new in zip(rm.names(), right_new, strict=True):
+                if new != orig and orig not in lnames:
+                    bad("O6.1", f"right column {orig!r} does not clash with a left name but became {new!r} while other right columns kept their names", kind="partial_rename_of_non_clashing")
         if nonempty:
             s = next(iter(nonempty))
             if s != base:
